@@ -139,11 +139,15 @@ def eval_case(case: dict) -> dict:
     keep = (P.norm_gamma(g)["font"], P.norm_gamma(g)["size"]) != (1, 9)
 
     ntn = [0]
+    sample = {}
 
     def visit(hist, obs, parent):
         check_obs(g, hist, obs, viol, cnt)
         if not obs.error and len(obs.pages) >= 2:
             ntn[0] += 1
+            if not sample and len(hist) >= 4:
+                sample.update({"gamma": compact(P.norm_gamma(g)), "history": [list(e) for e in hist],
+                               "pages": [[(r if r != "data" else f"D{i[1]}x{l}") for r, i, l in pg] for pg in obs.pages]})
         obs.doc = obs.built = None
 
     stats = P.explore(g, case, visit, keep_doc=keep)
@@ -159,7 +163,7 @@ def eval_case(case: dict) -> dict:
     cnt.pop("x", None)
     if case["mode"] == "bfs":
         cnt["bfs_max_history_len"] = stats["max_len"]
-    return {"viol": list(best.values()), "nt_n": ntn[0], "cnt": {k: v for k, v in cnt.items() if v},
+    return {"viol": list(best.values()), "nt_n": ntn[0], "sample": sample or None, "cnt": {k: v for k, v in cnt.items() if v},
             "evals": stats["observations"], "states": len(stats["states"]), "transitions": len({(s, e) for s, e, _, _ in stats["trans"]})}
 
 
